@@ -263,3 +263,56 @@ End Format.
 
 Definition format_bytes (alnum : bytes -> bool) (cfg : fconfig) (input : bytes) : option bytes :=
   match format_model alnum cfg input with inl o => Some o | inr _ => None end.
+
+(* ------------------------------------------------------------------ *)
+(* The composition written out: the named intermediate values of a run, as functions of the lexer's tokens.
+   Proofs/FormatProofs.v (format_model_eq, format_model_spec) shows that format_model is exactly this expression;
+   the end-to-end theorems are stated on these names. *)
+Definition fm_parse (segs : list seg) : presult := parse_file_model (map seg_ty segs) (map seg_wsnl segs).
+(* the tokens handed to everything after the parser: the lexer's text, the parser's types with the generic chevrons distinguished *)
+Definition fm_toks0 (segs : list seg) : list token := tokens_of segs (r_toks (fm_parse segs)).
+Definition fm_toks (segs : list seg) : list token := retype (fm_toks0 segs) (generics_consolidate (map t_ty (fm_toks0 segs))).
+Definition fm_tys (segs : list seg) : list TokenType := map t_ty (fm_toks segs).
+(* the lines after both consolidators *)
+Definition fm_lines_cd (segs : list seg) : list lline := conddir_consolidate_std (fm_tys segs) (r_lines (fm_parse segs)).
+Definition fm_lines0 (segs : list seg) : list lline := deindent_package (fm_tys segs) (fm_lines_cd segs).
+(* the ignore marks *)
+Definition fm_marks (segs : list seg) : list bool :=
+  or_marks (or_marks (map (fun _ => false) (fm_toks0 segs)) (toggle_marks false (fm_toks segs)))
+           (asm_marks (fm_toks segs) (map line_view (fm_lines0 segs))).
+(* what the formatters see *)
+Definition fm_lines (segs : list seg) : list lline := void_llines (fm_marks segs) (fm_lines0 segs).
+Definition fm_l0 (segs : list seg) : list ftoken :=
+  map (fun tm : token * bool => (fst tm, fmt_of_ws (t_ws (fst tm)) (snd tm))) (combine (fm_toks segs) (fm_marks segs)).
+Definition fm_l1 segs := token_spacing (fm_l0 segs).
+Definition fm_l2 segs := lowercase_keywords (fm_l1 segs).
+Definition fm_l3 alnum segs := comment_formatter alnum (fm_l2 segs).
+Definition fm_l4 alnum segs := eof_newline_lines (fm_lines segs) (fm_l3 alnum segs).
+Definition fm_wrap alnum cfg segs := olf_model (cfg_rs cfg) (cfg_ws cfg) (c_fms cfg) (fm_lines segs) (fm_l4 alnum segs).
+Definition fm_final alnum cfg segs : list ftoken := fst (fst (fm_wrap alnum cfg segs)).
+Definition fm_out alnum cfg segs : bytes := reconstruct (cfg_rs cfg) (fm_final alnum cfg segs).
+
+(* the three side conditions: the explicit error values of the stage models that the composition can return
+   (FormatTotalProofs: the second and third are never hit) *)
+Definition fm_parse_ok segs : Prop := r_err (fm_parse segs) = None.
+Definition fm_conddir_ok segs : Prop := expand_all_chk (fm_tys segs) (r_lines (fm_parse segs)) <> None.
+Definition fm_wrap_ok alnum cfg segs : Prop := snd (fm_wrap alnum cfg segs) = false.
+
+(* ------------------------------------------------------------------ *)
+(* Acceptance predicate of Proofs/FormatEofProofs.v (format_ends_with_one_newline), evaluated by the driver unit `eofhyp`:
+   token e lies only in parentless Eof lines [e] that are nobody's parent *)
+Definition lone_linesb (lines : list lline) (e : nat) : bool :=
+  forallb (fun kl : nat * lline =>
+             let (k, ln) := kl in
+             if existsb (Nat.eqb e) (ll_toks ln) then
+               nat_list_eqb (ll_toks ln) [e]
+               && match ll_parent ln with None => true | Some _ => false end
+               && (ll_type ln IS LLT_Eof)
+               && forallb (fun l' => match ll_parent l' with Some (pl, _) => negb (Nat.eqb pl k) | None => true end) lines
+             else true)
+          (combine (seq 0 (length lines)) lines).
+
+Definition eof_lines_okb (segs : list seg) : bool :=
+  lone_linesb (fm_lines segs) (length segs - 1)
+  && existsb (fun ln => ll_type ln IS LLT_Eof) (fm_lines segs)
+  && match nth_error (fm_marks segs) (length segs - 1) with Some false => true | _ => false end.
